@@ -66,7 +66,7 @@ def work(job):
     jobs = []; meta = {}
     for cid, seed, dm, mode in cases:
         rng = random.Random(seed)
-        ch, h = c01lib.make_case(seed, dm if dm != 'promela' else 'lua')
+        ch, h = c01lib.make_case(seed, dm)
         xml = None
         if mode == 'error':
             if not inject_error(ch, rng, dm): mode = 'plain'
